@@ -70,6 +70,9 @@ def run(F, rep, tier):
     unsigned_sub(F, rep)
     index_guard(F, rep)
     parser_progress(F, rep)
+    # "... or returns a non-empty list of errors": an Err that carries no error is printed as nothing and exits with 0
+    import c20
+    c20.nonempty_errors(F, rep, "NONEMPTY-ERR")
 
 
 # loops of the parser that are not driven by a cursor: what bounds them (reviewed; anything else is reported as a note)
